@@ -36,7 +36,7 @@ TIER = ["quick"]
 
 
 def shards(tier, seed):
-    return campaign.tree_shards(TREES[tier], 3 if tier == "quick" else 16)
+    return campaign.tree_shards(TREES[tier], 3 if tier == "quick" else 16, capture=True)
 
 
 def run(shard, rec, tier, seed):
@@ -53,8 +53,8 @@ def run(shard, rec, tier, seed):
                 continue
             rec.count("trees-staged")
             if t.generator_reused:
-                rec.count("trees-generated-by-an-instance-that-read-an-earlier-revision")
-            run_tree(rec, tier, seed, ti, spec, t)
+                rec.count("trees-generated-after-a-failed-run-on-a-broken-revision" if t.prior_failed else "trees-generated-by-an-instance-that-read-an-earlier-revision")
+            run_tree(campaign.CaptureRec(rec, ti), tier, seed, ti, spec, t)
 
 
 def mutations(rng, base, n):
